@@ -5,8 +5,12 @@ use harness::*;
 const REQUIRED: [usize; 11] = [0, 1, 2, 5, 11, 12, 13, 15, 16, 17, 21];
 
 fn str_value(rng: &mut Rng) -> String {
-    match rng.below(12) {
+    match rng.below(16) {
         0 => String::new(),
+        12 => "\u{feff}bom".into(),
+        13 => "nul\0in".into(),
+        14 => "trail \u{3000}".into(),
+        15 => "\u{feff}".into(),
         1 => "x".into(),
         2 => "a=b".into(),
         3 => "=".into(),
@@ -79,6 +83,30 @@ fn rand_val(rng: &mut Rng, var: usize) -> Val {
     }
 }
 
+/// PKGPATH and PREV_PKGPATH given the same text, DEPENDS equal to CONFLICTS, ...: a value is
+/// never special because another variable happens to hold it too
+fn alias_values(rng: &mut Rng, asg: &mut Vec<(usize, Val)>) {
+    if rng.chance(1, 4) {
+        let kinds = |k: u8| -> Vec<usize> { (0..asg.len()).filter(|&i| KINDS[asg[i].0] == k).collect() };
+        let k = *rng.pick(&[0u8, 0, 2]);
+        let idx = kinds(k);
+        if idx.len() >= 2 {
+            let a = *rng.pick(&idx);
+            let b2 = *rng.pick(&idx);
+            let v = asg[a].1.clone();
+            asg[b2].1 = v;
+        }
+    }
+    // the pair the summary itself relates: PKGPATH (16) and PREV_PKGPATH (18)
+    if rng.chance(1, 4) {
+        if let Some(v) = asg.iter().find(|(i, _)| *i == 16).map(|(_, v)| v.clone()) {
+            asg.retain(|(i, _)| *i != 18);
+            asg.push((18, v));
+            asg.sort_by_key(|(i, _)| *i);
+        }
+    }
+}
+
 fn assignment(rng: &mut Rng, all_required: bool) -> Vec<(usize, Val)> {
     let mut vars: Vec<usize> = vec![];
     for v in 0..23 {
@@ -87,7 +115,9 @@ fn assignment(rng: &mut Rng, all_required: bool) -> Vec<(usize, Val)> {
             vars.push(v);
         }
     }
-    vars.into_iter().map(|v| (v, rand_val(rng, v))).collect()
+    let mut asg: Vec<(usize, Val)> = vars.into_iter().map(|v| (v, rand_val(rng, v))).collect();
+    alias_values(rng, &mut asg);
+    asg
 }
 
 /// a call history ending in the given final values: optional junk first, arrays by set / pushes /
@@ -329,6 +359,38 @@ fn gen_c08(tier: &str, rng: &mut Rng, emit: &mut dyn FnMut(Op)) {
         }
         emit(Op::s("summary.parse", &[&t]));
     }
+    // is_completed() through the setter API: "set" means the variable has a value, an empty line
+    // list included; every required variable left out in turn, set again, emptied again
+    for _ in 0..(if thorough { 1500 } else { 150 }) {
+        let full = rng.chance(2, 3);
+        let asg = assignment(rng, full);
+        let mut calls = history(rng, &asg);
+        for _ in 0..rng.range(0, 3) {
+            let v = *rng.pick(&[3usize, 4, 5, 19, 20, 22, 5, 5]);
+            let pos = rng.range(0, calls.len());
+            calls.insert(pos, call_set(v, &Val::A(vec![])));
+            if rng.chance(1, 3) {
+                let at = rng.range(pos + 1, calls.len());
+                calls.insert(at, call_push(v, "again"));
+            }
+        }
+        emit_ops(emit, &with_observations(rng, &calls));
+    }
+    for r in REQUIRED {
+        let mut asg = assignment(rng, true);
+        asg.retain(|(v, _)| *v != r);
+        emit_ops(emit, &canonical_calls(&asg));
+    }
+    // repeated integer variables: EVERY occurrence must be an integer, not only the last
+    for _ in 0..(if thorough { 600 } else { 80 }) {
+        let mut lines = base(rng);
+        let var = if rng.chance(1, 2) { "FILE_SIZE" } else { "SIZE_PKG" };
+        let p1 = rng.range(0, lines.len());
+        lines.insert(p1, format!("{}={}", var, rng.pick(&bad_ints)));
+        let p2 = rng.range(0, lines.len());
+        lines.insert(p2, format!("{}={}", var, rng.pick(&["1", "4321", "-5"])));
+        emit(Op::s("summary.parse", &[&join(&lines, rng)]));
+    }
     // std `lines()` model
     for t in ["", "a", "a\n", "a\n\n", "\n", "a\r\n", "a\r", "a\r\nb\r", "\r\n", "a\n\rb", "a\r\r\n", "\n\n\n"] {
         emit(Op::s("str.lines", &[t]));
@@ -348,7 +410,7 @@ fn entry_text(rng: &mut Rng, ascii: bool) -> String {
     } else {
         // keep entries short, put multi-byte characters at line ends / before the separator
         for (i, (_, v)) in asg.iter_mut().enumerate() {
-            let tail = ["é", "€", "𐀀", "", "x"][i % 5];
+            let tail = ["é", "€", "𐀀", "", "x", "\u{feff}", " ", "\u{3000}", "\t"][i % 9];
             match v {
                 Val::S(s) => *s = format!("{}{}", s.chars().take(6).collect::<String>(), tail),
                 Val::A(a) => a.iter_mut().for_each(|s| *s = format!("{}{}", s.chars().take(4).collect::<String>(), tail)),
@@ -442,6 +504,12 @@ fn gen_c09(tier: &str, rng: &mut Rng, emit: &mut dyn FnMut(Op)) {
     let small = "BUILD_DATE=é\nCATEGORIES=€\nCOMMENT=𐀀\nDESCRIPTION=é\nMACHINE_ARCH=x\nOPSYS=x\nOS_VERSION=x\nPKGNAME=a-1\nPKGPATH=a/b\nPKGTOOLS_VERSION=1\nSIZE_PKG=1\n\n";
     let two = format!("{}{}", small, small);
     partitions(rng, two.as_bytes(), thorough, emit);
+    // byte order marks are ordinary characters wherever they stand (start of the stream, start of
+    // a line, start of a value: every cut right before one); blanks at the end of the last line
+    // of a record belong to its value
+    let bom = "BUILD_DATE=\u{feff}d\nCATEGORIES=c\nCOMMENT=caf\u{e9} \u{feff}tool\nDESCRIPTION=\u{feff}\nMACHINE_ARCH=x\nOPSYS=x\nOS_VERSION=x\nPKGNAME=a-1\nPKGPATH=a/b\nPKGTOOLS_VERSION=1\nSIZE_PKG=1\nSUPERSEDES=old-[0-9]* \nSUPERSEDES=older<1 \t\u{3000}\n\n";
+    let bom2 = format!("{}{}", bom, small);
+    partitions(rng, bom2.as_bytes(), thorough, emit);
     // malformed streams: one bad entry at each position, every kind of fault
     let good = |rng: &mut Rng| -> String { format!("{}\n", entry_text(rng, false)) };
     let faults: Vec<Box<dyn Fn(&mut Rng) -> Vec<u8>>> = vec![
